@@ -290,6 +290,15 @@ def oracle(case, res, K):
                 prev_max = max(prev_max, o['state']['max'])
             if abort_mode:
                 break
+            # the search failed and the handler threw: no hash of this id set was found, so whatever parameters are
+            # left behind must not send an id to some other class's (or a stale / null) v-table pointer -- with the
+            # checked variant every lookup is either rejected or answers with the id's own class
+            if checked and SENT not in ids and len(set(ids)) == len(ids):
+                for (t, kind, a, b) in o['lookups']:
+                    if kind == 'idx' and (t not in reg or b != reg[t]):
+                        F.append('update %d: the hash search failed, yet afterwards %s id %d is accepted by the checked hash '
+                                 '(index %d, v-table pointer of class %s)' % (k, 'registered' if t in reg else 'unregistered', t, a, b))
+                        break
         else:
             if rc == 0:
                 F.append('update %d: neither found nor error' % k)
